@@ -319,6 +319,10 @@ def one_case(ctx, rng, alpha, seen, i):
             canon = list(str(uuid.UUID(int=rng.getrandbits(128))))
             pos = rng.randrange(len(canon))
             canon[pos] = rng.choice("gG zZ-_" + alpha)
+            if rng.random() < 0.25:
+                # (one of the four dashes typed as a blank, a tab, a line break or left as something else)
+                canon = list(str(uuid.UUID(int=rng.getrandbits(128))))
+                canon[rng.choice([8, 13, 18, 23])] = rng.choice(" \t\n\r_.:/")
             r2 = rng.random()
             if r2 < 0.12:
                 # an intact canonical string behind a byte order mark
